@@ -36,12 +36,12 @@ def _end_index(sub, grid):
                     and len(c.args) == 1 and ast.unparse(c.args[0]).replace(" ", "") == grid else None)
     except Exception:
         return None
-    c = p.const_value()
+    c = p.const_or_none()
     if c is not None:
         return int(c) if c == int(c) else None
     ats = sorted(p.atoms())
     if len(ats) == 1 and ats[0].startswith("LEN(") and p.coeff_of_atom(ats[0]).const_value() == 1:
-        k = p.without_atom(ats[0]).const_value()
+        k = p.without_atom(ats[0]).const_or_none()
         if k is not None and k == int(k) and k < 0:
             return int(k)
     return None
@@ -405,7 +405,7 @@ def run(ctx, chk, tier="quick"):
                 e0, e1, e2 = n.elt.elts
                 try:
                     step2 = isinstance(rng, ast.Call) and isinstance(rng.func, ast.Name) and rng.func.id == "range" and len(rng.args) == 3 \
-                        and py_poly(rng.args[0]).const_value() == 0 and py_poly(rng.args[2]).const_value() == 2
+                        and py_poly(rng.args[0]).const_or_none() == 0 and py_poly(rng.args[2]).const_or_none() == 2
                     pair = isinstance(e0, ast.Subscript) and isinstance(e1, ast.Subscript) and py_poly(e0.slice) == Poly.atom(iv) \
                         and py_poly(e1.slice) == Poly.atom(iv) + Poly.const(1) and ast.unparse(e0.value) == ast.unparse(e1.value)
                     label = ast.unparse(e2).replace(" ", "") in ("%s//2+1" % iv, "1+%s//2" % iv)
@@ -471,16 +471,18 @@ def run(ctx, chk, tier="quick"):
             if isinstance(n, ast.Assign) and isinstance(n.targets[0], ast.Subscript) and isinstance(n.targets[0].slice, ast.Slice) \
                     and n.targets[0].slice.lower is None and n.targets[0].slice.upper is None:
                 try:
-                    sent_set = (n.targets[0].value.id if isinstance(n.targets[0].value, ast.Name) else None, py_poly(n.value).const_value(), n)
+                    sent_set = (n.targets[0].value.id if isinstance(n.targets[0].value, ast.Name) else None, py_poly(n.value).const_or_none(), n)
                 except Exception:
                     pass
             if isinstance(n, ast.Assign) and isinstance(n.value, ast.Compare) and len(n.value.ops) == 1 and isinstance(n.value.ops[0], (ast.NotEq, ast.Gt, ast.GtE)):
                 try:
                     sent_test = (n.value.left.id if isinstance(n.value.left, ast.Name) else None, type(n.value.ops[0]).__name__,
-                                 py_poly(n.value.comparators[0]).const_value(), n)
+                                 py_poly(n.value.comparators[0]).const_or_none(), n)
                 except Exception:
                     pass
-        if sent_set is not None and sent_test is not None and sent_set[0] == sent_test[0]:
+        if sent_set is not None and sent_test is not None and sent_set[0] == sent_test[0] and (sent_set[1] is None or sent_test[2] is None):
+            chk.indeterminate("C10.O5", where_of(wl, sent_test[3]), "sentinel of unlabelled instants is not a literal")
+        elif sent_set is not None and sent_test is not None and sent_set[0] == sent_test[0]:
             sv_, tv_ = sent_set[1], sent_test[2]
             opn = sent_test[1]
             oks = (opn == "NotEq" and sv_ == tv_ and sv_ < 1) or (opn == "Gt" and sv_ <= tv_ < 1) or (opn == "GtE" and sv_ < tv_ <= 1)
